@@ -59,6 +59,13 @@ def check(ctx):
         "utils.reverse_cigar's index arithmetic (that the reversed CIGAR is the op-wise reverse)",
         "view.run's construction of the node->interval map and contig lengths from the rGFA tags (checked only for call-site agreement in C03/C04)",
     ]
+    # mechanisms this property rests on (see shared.py): a change there is reported here as well
+    from . import shared as _sh
+
+    _sh.gaf_reader(ctx)
+    _sh.graph_loader(ctx)
+    _sh.contig_paths(ctx)
+    _sh.cli_layer(ctx, "gaftools.cli.view")
 
 
 # ---------------------------------------------------------------------------------------------
@@ -922,6 +929,17 @@ def r01_8(ctx):
             seen_len.append(norm(c))
             okl = okl or (refvar is not None and src_it == refvar and keyv == cv and c.args and norm(c.args[0]) == cv and _flag_false(repo, run, c))
     if not seen_len:
+        # lengths summed by hand: the one thing decidable is an accumulator that is not reset per contig
+        for n in walk_own(run.node):
+            if isinstance(n, ast.For) and refvar is not None and norm(n.iter) == refvar:
+                for st in n.body:
+                    if isinstance(st, ast.Assign) and isinstance(st.targets[0], ast.Subscript) and norm(st.targets[0].slice) == norm(n.target) and isinstance(st.value, ast.Name):
+                        acc = st.value.id
+                        grows = any(isinstance(x, ast.AugAssign) and norm(x.target) == acc for x in ast.walk(n))
+                        reset_inside = any(isinstance(x, ast.Assign) and norm(x.targets[0]) == acc for b in n.body for x in ast.walk(b))
+                        if grows and not reset_inside:
+                            ctx.violated("R01.8", run.where(st), f"`{acc}` is summed over the segments of every reference contig without being reset per contig: the length stored for the second and later contigs is a running total", key_of(run, f"contig-length-running-total:{acc}"))
+                            return
         raise AnalysisError("R01.8", run.where(), "cannot find where the reference contig lengths are computed")
     gcl = repo.func("gaftools.gfa", "GFA.get_contig_length", "R01.8")
     ctx.analysed_func(gcl)
